@@ -6,20 +6,27 @@
    Loops are solved by iteration to a post-fixed point (None = not reached within the fuel).
    Package-level variables are tracked flow-sensitively inside a function exactly like locals (this is what
    the implementation does, and what makes it blind to a callee that re-assigns them: the analysis also
-   computes whether a value tracked in this way across a call is ever used, a_gsafe). *)
+   computes whether a value tracked in this way across a call is ever used, a_gsafe).
+   Functions with a nonnil->nonnil contract (ctr) get call-site-specific parameter and result sites, and the
+   callee's triggers that start at its parameter or end at its result are duplicated per call site of the same
+   package, those ending at the result being controlled by the call-site parameter site. *)
 From Coq Require Import List Bool Arith PeanoNat.
 From NM Require Import Engine MiniGo.
 Import ListNotations.
 
 (* annotation sites of the fragment *)
-Inductive asite := SParam (f : fname) (i : nat) | SResult (f : fname) | SGlobal (k : nat).
+Inductive asite :=
+  | SParam (f : fname) (i : nat) | SResult (f : fname) | SGlobal (k : nat)
+  | SCallParam (f : fname) (cs : nat) | SCallResult (f : fname) (cs : nat).
 
 (* sites as the engine sees them (natural numbers) *)
 Definition enc (s : asite) : site :=
   match s with
-  | SParam f i => 3 * (f * 64 + i)
-  | SResult f => 3 * f + 1
-  | SGlobal k => 3 * k + 2
+  | SParam f i => 5 * (f * 64 + i)
+  | SResult f => 5 * f + 1
+  | SGlobal k => 5 * k + 2
+  | SCallParam f cs => 5 * (cs * 64 + f) + 3
+  | SCallResult f cs => 5 * (cs * 64 + f) + 4
   end.
 
 Inductive prod :=
@@ -33,6 +40,8 @@ Definition asite_eqb (s t : asite) : bool :=
   | SParam f i, SParam g j => Nat.eqb f g && Nat.eqb i j
   | SResult f, SResult g => Nat.eqb f g
   | SGlobal k, SGlobal l => Nat.eqb k l
+  | SCallParam f c, SCallParam g d => Nat.eqb f g && Nat.eqb c d
+  | SCallResult f c, SCallResult g d => Nat.eqb f g && Nat.eqb c d
   | _, _ => false
   end.
 Definition prod_eqb (p q : prod) : bool :=
@@ -49,6 +58,16 @@ Definition kind_of (p : prod) : kind :=
 (* a use of a value is covered by the soundness argument unless it may be such a stale package-level value *)
 Definition use_ok (ps : list prod) : bool := negb (existsb (prod_eqb PStale) ps).
 
+(* triggers, before sites are numbered for the engine *)
+Inductive scons := CAlways | CSite (s : asite).
+Record strig := { s_id : nat; s_prod : prod; s_cons : scons; s_ctrl : option asite }.
+Definition mk_trigger (id : nat) (p : prod) (c : scons) : strig :=
+  {| s_id := id; s_prod := p; s_cons := c; s_ctrl := None |}.
+Definition etrig (t : strig) : trigger :=
+  {| t_id := s_id t; t_prod := kind_of (s_prod t);
+     t_cons := match s_cons t with CAlways => KAlways | CSite s => KCond (enc s) end;
+     t_ctrl := match s_ctrl t with Some s => Some (enc s) | None => None end |}.
+
 Definition aset := list prod.
 Definition env := list (var * aset).
 
@@ -61,9 +80,6 @@ Definition aput (e : env) (x : var) (a : aset) : env := (x, a) :: e.
 
 Definition prods_of_atom (e : env) (a : atom_e) : aset :=
   match a with ANil => [PNil] | ANew => [PNever] | AVar x => aget e x end.
-
-Definition mk_trigger (id : nat) (p : prod) (c : kind) : trigger :=
-  {| t_id := id; t_prod := kind_of p; t_cons := c; t_ctrl := None |}.
 
 Definition keys (e : env) : list var := map fst e.
 Definition subset_b (a b : aset) : bool := forallb (fun p => existsb (prod_eqb p) b) a.
@@ -87,11 +103,11 @@ Definition join_opt (o1 o2 : option env) : option env :=
 
 (* a condition: environment where it holds, environment where it fails, triggers of the dereferences in it,
    and whether every dereferenced value is covered *)
-Fixpoint acond (c : cond) (e : env) : env * env * list trigger * bool :=
+Fixpoint acond (c : cond) (e : env) : env * env * list strig * bool :=
   match c with
   | COpaque => (e, e, [], true)
   | CNonNil x => (aput e x [PNever], e, [], true)
-  | CDeref d x => (e, e, map (fun p => mk_trigger d p KAlways) (aget e x), use_ok (aget e x))
+  | CDeref d x => (e, e, map (fun p => mk_trigger d p CAlways) (aget e x), use_ok (aget e x))
   | CNot c1 => let '(et, ef, tr, b) := acond c1 e in (ef, et, tr, b)
   | CAnd c1 c2 =>
       let '(et1, ef1, tr1, b1) := acond c1 e in
@@ -105,16 +121,17 @@ Fixpoint acond (c : cond) (e : env) : env * env * list trigger * bool :=
 Definition cond_true (c : cond) (e : env) : env := fst (fst (fst (acond c e))).
 
 (* writing into a package-level variable is a use of the written value at the variable's site *)
-Definition store_triggers (x : var) (a : aset) : list trigger :=
+Definition store_triggers (x : var) (a : aset) : list strig :=
   match x with
-  | VG k => map (fun p => mk_trigger 0 p (KCond (enc (SGlobal k)))) a
+  | VG k => map (fun p => mk_trigger 0 p (CSite (SGlobal k))) a
   | VL _ => []
   end.
 
-Fixpoint arg_triggers (e : env) (g : fname) (i : nat) (args : list atom_e) : list trigger :=
+(* argument i is a use of its value at the site sf i *)
+Fixpoint arg_triggers (e : env) (sf : nat -> asite) (i : nat) (args : list atom_e) : list strig :=
   match args with
   | [] => []
-  | a :: args' => map (fun p => mk_trigger 0 p (KCond (enc (SParam g i)))) (prods_of_atom e a) ++ arg_triggers e g (S i) args'
+  | a :: args' => map (fun p => mk_trigger 0 p (CSite (sf i))) (prods_of_atom e a) ++ arg_triggers e sf (S i) args'
   end.
 
 (* at a call, a package-level variable that is no longer (also) described by its site becomes stale *)
@@ -125,12 +142,23 @@ Fixpoint mark_stale (ng : nat) (e : env) : env :=
   | S k => let e' := mark_stale k e in if fresh e k then e' else aput e' (VG k) (PStale :: aget e (VG k))
   end.
 
+Definition is_nil_atom (a : atom_e) : bool := match a with ANil => true | _ => false end.
+
+(* sites used by a call of g at call site cs: a contracted callee gets call-site-specific ones; a call with only
+   literal arguments to a contracted callee of another package reads the callee's shared result site *)
+Definition call_param_site (ctr : fname -> bool) (g : fname) (cs i : nat) : asite :=
+  if ctr g then SCallParam g cs else SParam g i.
+Definition call_result_site (ctr : fname -> bool) (sp : fname -> bool) (g : fname) (cs : nat) (args : list atom_e) : asite :=
+  if ctr g && (sp g || negb (forallb is_nil_atom args)) then SCallResult g cs else SResult g.
+
 Record ares := { a_env : option env;      (* None: control never falls through *)
-                 a_trig : list trigger;
+                 a_trig : list strig;
                  a_gsafe : bool }.         (* no stale package-level value is used *)
 
 Section Analyze.
   Variable ng : nat.             (* number of package-level variables *)
+  Variable ctr : fname -> bool.  (* functions with a nonnil->nonnil contract *)
+  Variable sp : fname -> bool.   (* callee in the package of the function being analysed? *)
   Variable f : fname.            (* the function being analysed *)
 
   (* loop: iterate e := e join post(body under the test) until the body's result is below e *)
@@ -167,13 +195,14 @@ Section Analyze.
     | SAssign x a =>
         let ps := prods_of_atom e a in
         Some {| a_env := Some (aput e x ps); a_trig := store_triggers x ps; a_gsafe := use_ok ps || negb (is_glob x) |}
-    | SCall x g args =>
-        let res := [PSite (SResult g)] in
+    | SCall cs x g args =>
+        let res := [PSite (call_result_site ctr sp g cs args)] in
         let e' := mark_stale ng e in
         Some {| a_env := Some (match x with Some y => aput e' y res | None => e' end);
-                a_trig := arg_triggers e g 0 args ++ match x with Some y => store_triggers y res | None => [] end;
+                a_trig := arg_triggers e (call_param_site ctr g cs) 0 args ++
+                          match x with Some y => store_triggers y res | None => [] end;
                 a_gsafe := forallb (fun a => use_ok (prods_of_atom e a)) args |}
-    | SDeref d x => Some {| a_env := Some e; a_trig := map (fun p => mk_trigger d p KAlways) (aget e x); a_gsafe := use_ok (aget e x) |}
+    | SDeref d x => Some {| a_env := Some e; a_trig := map (fun p => mk_trigger d p CAlways) (aget e x); a_gsafe := use_ok (aget e x) |}
     | SIf c s1 s2 =>
         let '(et, ef, trc, bc) := acond c e in
         match analyze fuel s1 et, analyze fuel s2 ef with
@@ -191,7 +220,7 @@ Section Analyze.
         end
     | SReturn a =>
         Some {| a_env := None;
-                a_trig := map (fun p => mk_trigger 0 p (KCond (enc (SResult f)))) (prods_of_atom e a);
+                a_trig := map (fun p => mk_trigger 0 p (CSite (SResult f))) (prods_of_atom e a);
                 a_gsafe := use_ok (prods_of_atom e a) |}
     end.
 End Analyze.
@@ -199,43 +228,94 @@ End Analyze.
 Fixpoint entry_env (f : fname) (i n : nat) : env :=
   match n with O => [] | S n' => (VL i, [PSite (SParam f i)]) :: entry_env f (S i) n' end.
 
+Definition falloff (f : fname) : strig := mk_trigger 0 PNil (CSite (SResult f)).
+
 (* one function: parameters come from their sites; falling off the end returns the zero value nil *)
-Definition analyze_func (ng fuel : nat) (f : fname) (fd : func) : option (list trigger * bool) :=
-  match analyze ng f fuel (f_body fd) (entry_env f 0 (f_nparams fd)) with
+Definition analyze_func (ng fuel : nat) (ctr : fname -> bool) (sp : fname -> bool) (f : fname) (fd : func)
+  : option (list strig * bool) :=
+  match analyze ng ctr sp f fuel (f_body fd) (entry_env f 0 (f_nparams fd)) with
   | None => None
   | Some r =>
       Some (match a_env r with
-            | Some _ => a_trig r ++ [mk_trigger 0 PNil (KCond (enc (SResult f)))]
+            | Some _ => a_trig r ++ [falloff f]
             | None => a_trig r
             end, a_gsafe r)
   end.
 
-Fixpoint analyze_funcs (ng fuel : nat) (f : fname) (fds : list func) : option (list (list trigger) * bool) :=
+Fixpoint analyze_funcs (ng fuel : nat) (ctr : fname -> bool) (sp : fname -> fname -> bool) (f : fname) (fds : list func)
+  : option (list (list strig) * bool) :=
   match fds with
   | [] => Some ([], true)
   | fd :: rest =>
-      match analyze_func ng fuel f fd, analyze_funcs ng fuel (S f) rest with
+      match analyze_func ng fuel ctr (sp f) f fd, analyze_funcs ng fuel ctr sp (S f) rest with
       | Some (t1, b1), Some (t2, b2) => Some (t1 :: t2, b1 && b2)
       | _, _ => None
       end
   end.
 
 (* declarations `var g *T` (no initial value) put nil into the variable's site *)
-Fixpoint decl_triggers (k : nat) (gi : list bool) : list trigger :=
+Fixpoint decl_triggers (k : nat) (gi : list bool) : list strig :=
   match gi with
   | [] => []
-  | b :: gi' => (if b then [] else [mk_trigger 0 PNil (KCond (enc (SGlobal k)))]) ++ decl_triggers (S k) gi'
+  | b :: gi' => (if b then [] else [mk_trigger 0 PNil (CSite (SGlobal k))]) ++ decl_triggers (S k) gi'
   end.
 
-(* whole program: the triggers of the declarations, the triggers per function, and the call-safety flag *)
-Definition analyze_program (fuel : nat) (p : program) : option (list trigger * list (list trigger) * bool) :=
-  match analyze_funcs (length (p_ginit p)) fuel 0 (p_funcs p) with
+(* ---- duplication of a contracted callee's triggers onto a call site ---- *)
+Definition is_param_prod (g : fname) (t : strig) : bool := prod_eqb (s_prod t) (PSite (SParam g 0)).
+Definition is_res_cons (g : fname) (t : strig) : bool :=
+  match s_cons t with CSite s => asite_eqb s (SResult g) | CAlways => false end.
+Definition touches (g : fname) (t : strig) : bool := is_param_prod g t || is_res_cons g t.
+Definition dupt (g : fname) (cs : nat) (t : strig) : strig :=
+  {| s_id := s_id t;
+     s_prod := if is_param_prod g t then PSite (SCallParam g cs) else s_prod t;
+     s_cons := if is_res_cons g t then CSite (SCallResult g cs) else s_cons t;
+     s_ctrl := if is_res_cons g t then Some (SCallParam g cs) else None |}.
+Definition dups (g : fname) (cs : nat) (tg : list strig) : list strig := map (dupt g cs) (filter (touches g) tg).
+
+Fixpoint calls_of (st : stmt) : list (fname * nat) :=
+  match st with
+  | SSeq a b | SIf _ a b => calls_of a ++ calls_of b
+  | SWhile _ b => calls_of b
+  | SCall cs _ g _ => [(g, cs)]
+  | _ => []
+  end.
+
+Definition dups_of_caller (ctr : fname -> bool) (sp : fname -> bool) (tss : list (list strig)) (fd : func) : list strig :=
+  flat_map (fun gc => if ctr (fst gc) && sp (fst gc) then dups (fst gc) (snd gc) (nth (fst gc) tss []) else [])
+           (calls_of (f_body fd)).
+
+Fixpoint dups_all (ctr : fname -> bool) (sp : fname -> fname -> bool) (tss : list (list strig)) (f : fname) (fds : list func)
+  : list (list strig) :=
+  match fds with
+  | [] => []
+  | fd :: rest => dups_of_caller ctr (sp f) tss fd :: dups_all ctr sp tss (S f) rest
+  end.
+
+(* every call of a contracted function comes from the callee's own package *)
+Fixpoint ctr_local (ctr : fname -> bool) (sp : fname -> fname -> bool) (f : fname) (fds : list func) : bool :=
+  match fds with
+  | [] => true
+  | fd :: rest => forallb (fun gc => negb (ctr (fst gc)) || sp f (fst gc)) (calls_of (f_body fd)) && ctr_local ctr sp (S f) rest
+  end.
+
+Record pres := { r_decl : list strig;            (* declarations of package-level variables *)
+                 r_funcs : list (list strig);     (* per function *)
+                 r_dups : list (list strig);      (* per caller: duplicated triggers of contracted callees *)
+                 r_gsafe : bool;                  (* no stale package-level value is used *)
+                 r_clocal : bool }.               (* contracted functions are only called from their own package *)
+
+(* whole program; pk f is the package of function f *)
+Definition analyze_program (fuel : nat) (ctr : fname -> bool) (pk : fname -> nat) (p : program) : option pres :=
+  let sp f g := Nat.eqb (pk f) (pk g) in
+  match analyze_funcs (length (p_ginit p)) fuel ctr sp 0 (p_funcs p) with
   | None => None
-  | Some (tss, b) => Some (decl_triggers 0 (p_ginit p), tss, b)
+  | Some (tss, b) =>
+      Some {| r_decl := decl_triggers 0 (p_ginit p); r_funcs := tss; r_dups := dups_all ctr sp tss 0 (p_funcs p);
+              r_gsafe := b; r_clocal := ctr_local ctr sp 0 (p_funcs p) |}
   end.
 
-Definition all_triggers (r : list trigger * list (list trigger) * bool) : list trigger :=
-  fst (fst r) ++ concat (snd (fst r)).
+Definition all_strigs (r : pres) : list strig := r_decl r ++ concat (r_funcs r) ++ concat (r_dups r).
+Definition all_triggers (r : pres) : list trigger := map etrig (all_strigs r).
 
 (* syntactic well-formedness: calls name existing functions with the right number of arguments, every
    package-level variable mentioned is declared *)
@@ -255,7 +335,7 @@ Section WF.
     | SSkip => true
     | SSeq a b => stmt_ok a && stmt_ok b
     | SAssign x a => var_ok x && atom_ok a
-    | SCall x g args =>
+    | SCall _ x g args =>
         match nth_error (p_funcs p) g with
         | Some fd => Nat.eqb (length args) (f_nparams fd)
         | None => false
@@ -269,4 +349,10 @@ Section WF.
   Definition wf_program : bool :=
     forallb (fun fd => stmt_ok (f_body fd)) (p_funcs p) &&
     match p_funcs p with fd :: _ => Nat.eqb (f_nparams fd) 0 | [] => true end.
+  (* contracts are about functions with exactly one parameter *)
+  Fixpoint ctr_arity (ctr : fname -> bool) (f : fname) (fds : list func) : bool :=
+    match fds with
+    | [] => true
+    | fd :: rest => (negb (ctr f) || Nat.eqb (f_nparams fd) 1) && ctr_arity ctr (S f) rest
+    end.
 End WF.
